@@ -306,6 +306,31 @@ def run(ctx):
                 gl_check(ctx, toks, gfn, idx, pathlib_too=(idx % 2 == 0))
                 rt = tuple(f for f in gfn if f != 'NODOTDIR') + (('SCANDOTDIR',) if idx % 5 == 0 else ())
                 real_tree_check(ctx, toks, rt, root, idx)
+        # every wildcard opener behind every kind of recursive / multi-separator prefix: the segment start is a segment start
+        # no matter how the parser got there (merged globstars, doubled separators, escaped separators)
+        GS, GL_ = (('gstar',),), (('gstarlong',),)
+        prefixes = [([GS, GS], None), ([GS, GS], ['//']), ([(('lit', 'a'),), GS, GS], None), ([GS, GS, GS], None), ([GL_, GS], None),
+                    ([GS, GL_], None), ([GS, (('lit', 'a'),)], None), ([(('lit', 'a'),)], ['//']), ([(('lit', 'a'),)], ['\\/']),
+                    ([GS], ['//']), ([GS, GS], ['/', '\\/'])]
+        openers = [s_ for s_ in spool if s_ not in (GS, GL_) and s_[0][0] != 'lit'] + [(('star',), ('sep', '/'), ('lit', 'x'))]
+        for pi, (pre, seps) in enumerate(prefixes):
+            for oi, op in enumerate(openers):
+                idx += 1
+                if quick and (idx * 2654435761) % 100 >= 50:
+                    continue
+                if not ctx.mine(idx):
+                    continue
+                segs = list(pre) + [op]
+                sp = (['/'] * (len(segs) - 1))
+                if seps:
+                    sp[-len(seps):] = seps
+                toks = gen.join_segments(segs, lead=False, trail=False, seps=sp)
+                if not gen.in_fragment_path(toks) or gen.ambiguous_adjacency(toks):
+                    continue
+                for gfn in (('GLOBSTAR',), ('GLOBSTAR', 'DOTGLOB'), ('GLOBSTAR', 'GLOBSTARLONG', 'NODOTDIR'))[idx % 3:idx % 3 + 1] + (('GLOBSTAR', 'GLOBSTARLONG'),):
+                    with ctx.case(label=gen.ser(toks)):
+                        gl_check(ctx, toks, gfn, idx, pathlib_too=(idx % 2 == 0))
+                        ctx.count('prefixed_opener_patterns')
         # exclusions
         atoms = [t for t in pool[:40]]
         k = 0
